@@ -248,6 +248,8 @@ pub fn cases(prop: &str, tier: Tier, seed: u64) -> Vec<CaseDesc> {
         "C12" => {
             out.extend(with_scenario(disk_corpus(false), "rt:emit,emit2,gc"));
             out.extend(with_scenario(g("customs", 4000, 150_000), "rt:emit,emit2,gc"));
+            // the same with DWARF emission on (the .debug* sections mixed between the unknown ones are then re-emitted)
+            out.extend(with_scenario(crate::gen::gen_specs("customs", seed ^ 0xd3b, if q { 2000 } else { 100_000 }), "rt:emit,emit2,gc;cfg=27"));
         }
         "C20" => {
             // every accepted operator alone in an otherwise MVP module, then the full census
